@@ -457,6 +457,16 @@ func (env *SpecEnv) evalCall(e *SExpr) Val {
 			env.fail(e, "no map range loop %d seen yet", ord)
 		}
 		return Val{T: app("select", fc.heapGet(env.st(), key, srt), arg(1).T), Ty: tBool}
+	case "sleepers", "woken": // ghost counters of a sync.Cond (number parked / signalled and not yet resumed)
+		key := map[string]string{"sleepers": "$condsleep", "woken": "$condwoken"}[name]
+		return Val{T: app("select", fc.heapGet(env.st(), key, "(Array Int Int)"), arg(0).T), Ty: tInt}
+	case "store": // store(a, i, v): functional update of a ghost array
+		a := arg(0)
+		at, ok := a.Ty.Underlying().(*types.Array)
+		if !ok {
+			env.fail(e, "store() needs a ghost array")
+		}
+		return Val{T: app("store", a.T, fc.toIdx(arg(1)), fc.assignConvSpec(arg(2), at.Elem()).T), Ty: a.Ty}
 	case "deref":
 		return fc.deref(env.st(), arg(0), token.NoPos)
 	case "bitsum": // number of set bits of a bit-vector value, as a sum of its bits (definition of popcount)
